@@ -322,6 +322,10 @@ class Ctx:
                 return True
             if self._check(cz) == z3.unsat:
                 return False
+            if self.prove(cz):
+                return True
+            if self.prove(z3.Not(cz)):
+                return False
             family_guard_decide(self, cz)
         if self.pos < len(self.prefix):
             choice = self.prefix[self.pos]
